@@ -110,7 +110,19 @@ func (g *c08gen) failStmt() (string, string) {
 			return fmt.Sprintf("UPDATE tv SET n = 5, id = 10 / (id - %d);", kt), ""
 		}
 	}
-	switch g.r.Intn(16) {
+	switch g.r.Intn(19) {
+	case 16:
+		// multi-table UPDATE: the first listed table evaluates fine, the second fails at row k
+		o := map[string]string{"t0": "t1", "t1": "t0"}[t]
+		return fmt.Sprintf("UPDATE %s, %s SET %s.n = %s.n + 1000, %s.n = 10 / (%s.id - %d) FROM %s JOIN %s ON %s.id = %s.id;", t, o, t, t, o, o, k, t, o, t, o), ""
+	case 17:
+		o := map[string]string{"t0": "t1", "t1": "t0"}[t]
+		return fmt.Sprintf("UPDATE %s, %s SET %s.s = 'multi', %s.n = %s.n FROM %s JOIN %s ON %s.id >= %s.id;", t, o, t, o, t, t, o, t, o), ""
+	case 18:
+		if hasTv {
+			return fmt.Sprintf("UPDATE tv, %s SET tv.n = tv.n + 500, %s.n = 10 / (%s.id - %d) FROM tv JOIN %s ON tv.id = %s.id;", t, t, t, k, t, t), ""
+		}
+		return fmt.Sprintf("DELETE FROM %s WHERE id IN (SELECT 10 / (id - %d) FROM t0);", t, k), ""
 	case 0:
 		rows := []string{"(401, 1, 'a')", "(402, 2, 'b')", "(403, 3, 'c')"}
 		rows[g.r.Intn(3)] = "(404, 4)"
